@@ -17,10 +17,34 @@ def main(tier):
     fam = diffcheck.Family(run, S, "C06")
     rng = random.Random(run.seed)
     items = gen.hybrid_programs(rng, 160 if tier == "quick" else 2500)
+    # the same placements on an aged compiler (temporaries numbered 9, 10, 99, 100 ... : names that sort differently)
+    aged_items = []
+    for it in items:
+        if not it["name"].startswith("mix") and len(it.get("_", "")) == 0:
+            for aged in (9, 99):
+                a = dict(it)
+                a["name"] = f"{it['name']}@aged{aged}"
+                a["aged"] = aged
+                aged_items.append(a)
+    items += aged_items if tier == "thorough" else rng.sample(aged_items, 60)
     for it in items:
         it["states_fn"] = c05.trip_states
     fam.replay_witnesses()
     progs, kept = fam.compile(items)
+    # numbering monitor: the same placement compiled with temporaries numbered from 9 / 99 must give the same code modulo the names
+    from .c14 import normalise
+
+    by_name = {p.name: p for p in progs}
+    numbering_pairs = 0
+    for p in progs:
+        if "@aged" in p.name:
+            base = by_name.get(p.name.split("@aged")[0])
+            if base is None:
+                continue
+            numbering_pairs += 1
+            if normalise(base.rzil) != normalise(p.rzil):
+                run.violation(f"emitted code depends on how many temporaries were numbered before ({p.name}): `{p.src[:100]}`",
+                              {"kind": "numbering", "name": p.name, "text": p.src, "fresh": base.rzil, "aged": p.rzil, "aged_by": p.extra["item"].get("aged")}, key="numbering:" + p.name.split(";")[0])
     nst = 40 if tier == "quick" else 160
     hyb_reads = [0]
 
@@ -35,7 +59,7 @@ def main(tier):
         "rule": "one case = (program, state) with a defined C execution; a program is distinct non-trivial when all compared executions agreed and at "
                 "least one hybrid temporary was read or one callee body was executed by the IL evaluator",
         "samples": fam.samples or [{"note": "none"}], "states_per_program": nst, "hybrid_temporary_reads_observed": hyb_reads[0],
-        "placement_templates": sum(1 for it in kept if not it["name"].startswith("mix")),
+        "placement_templates": sum(1 for it in kept if not it["name"].startswith("mix")), "fresh_vs_aged_pairs_compared": numbering_pairs,
         "hybrids_resolved_by_compiler": sum(len(it.get("_trace", {}).get("hyb", ())) for it in kept),
     })
     run.assumptions = ["C reference = gcc -O0 -fwrapv + UBSan handlers", "callee bodies are inlined in the caller's flat local namespace (what the plugin does)"]
